@@ -234,8 +234,10 @@ def op_text(model, sg, op, kind):
     elif kind == "FULLY_CONNECTED":
         x, w, o = T[ins[0]], T[ins[1]], T[outs[0]]
         faf = opt(op, 0, "b", 0)
-        if opt(op, 1, "b", 0) != 0 or opt(op, 2, "B", 0) != 0:
-            raise NotSimulated("FULLY_CONNECTED:weights_format_or_keep_num_dims")
+        # keep_num_dims only changes the shape of the result (batches = all elements / accumulation depth either way; the Lean
+        # reference takes the result shape from the file and checks the element count)
+        if opt(op, 1, "b", 0) != 0:
+            raise NotSimulated("FULLY_CONNECTED:weights_format")
         sx, _ = one_scale(x, kind)
         sw_, _ = one_scale(w, kind)
         so, zo = one_scale(o, kind)
